@@ -2,6 +2,7 @@
 from __future__ import annotations
 
 import ast
+import os
 import hashlib
 import itertools
 from dataclasses import dataclass, field
@@ -121,7 +122,54 @@ class Ctx:
             # the rule states its expectation in terms of a function or field that this tree does not have (renamed,
             # removed): it can no longer tell the expected construct from another one
             return self._add(UNREC, f, node, construct, f"the rule names {', '.join(gone)}, which does not exist in this tree (renamed or removed): the expectation `{expected[:120]}` cannot be matched against the code", found, **kw)
+        kw.pop("novel_ok", None)
+        if not kw.get("guard"):
+            kw.pop("guard_text", None)
+        guard = kw.pop("guard", None)  # "site": the function reported is new in this tree; "text": so is something the report names
+        if guard and not os.environ.get("PAMSA_NO_NOVELTY"):
+            gtext = kw.pop("guard_text", None)
+            new = self._novel_names(f if guard == "site" or gtext is None else None, (gtext if gtext is not None else found + " " + construct) if guard == "text" else "")
+            if new:
+                # the offending construct is (in) something this tree has and the tree the rules were confirmed on had not:
+                # the rule is looking at an extension of the mechanism it knows, and what it expects was stated without it
+                return self._add(UNREC, f, node, construct, f"the construct involves {', '.join(new[:4])}, new in this tree (absent from the tree the rules were confirmed on): `{expected[:100]}` was stated without it, whether the extension keeps it is not decided", found, **kw)
         return self._add(VIOLATED, f, node, construct, expected, found, **kw)
+
+    def _novel_names(self, f: Optional[FuncInfo], text: str) -> List[str]:
+        """identifiers of this tree's functions / attributes / parameters that the reference tree does not have at all, named in
+        a report or being the function the report is about"""
+        import re as _re
+
+        ref = getattr(self, "_ref_idents", None)
+        if ref is None:
+            from . import renames
+
+            tab = renames.load_reference()
+            ref = self._ref_idents = set(tab["idents"]) if tab else set()
+            cur = set()
+            for fn in self.program.all_functions():
+                cur.add(fn.name)
+                cur.update(fn.params)
+            for c, tabc in self.ctab.attrs.items():
+                cur |= set(tabc)
+            for mi in self.program.modules.values():
+                for n in ast.walk(mi.tree):
+                    if isinstance(n, ast.Attribute):
+                        cur.add(n.attr)
+            self._cur_idents = cur
+        if not ref:
+            return []
+        out: List[str] = []
+        g = f
+        while g is not None:
+            if g.name not in ref and not g.name.startswith("__") and g.qualname not in out:
+                out.append(g.qualname)
+            g = g.outer
+        for m in _re.finditer(r"(?<![A-Za-z0-9_'\"])([A-Za-z_][A-Za-z_0-9]{2,})\b", text):
+            nm = m.group(1)
+            if nm in self._cur_idents and nm not in ref and nm not in out and not any(o.endswith("." + nm) for o in out):
+                out.append(nm)
+        return out
 
     def _vanished_names(self, text: str) -> List[str]:
         import re as _re
@@ -162,6 +210,9 @@ class Ctx:
 
     def check(self, ok: bool, f: Optional[FuncInfo], node: Optional[ast.AST], construct: str, expected: str, found: str, **kw: Any) -> Instance:
         if ok:
+            kw.pop("guard", None)
+            kw.pop("guard_text", None)
+            kw.pop("novel_ok", None)
             return self.holds(f, node, construct, expected=expected, found=found, **kw)
         return self.violated(f, node, construct, expected, found, **kw)
 
@@ -300,6 +351,28 @@ def _foreign_order_field(ctx: "Ctx", f: FuncInfo, msg: str) -> Optional[str]:
     params = set(init.params) if init is not None else set()
     keys_ = {"kind", "is_buy", "price", "placed_at", "order_id", "self"}
     return f"{m.group(1)}.{m.group(2)}" if m.group(2) in params - keys_ else None
+
+
+def path_text(p: Path) -> str:
+    """what a path decided on and which routines were folded into it, as text for the novelty guard of Ctx.violated"""
+    parts = [short(c) for c, _, _ in p.conds]
+    for e in p.walk_events(True):
+        if e.kind == "note" and e.data.get("what") == "inline":
+            parts.append(str(e.data.get("target", "")).replace(".", " "))
+        elif e.kind == "call":
+            parts.append(e.name)
+    return " ".join(parts)
+
+
+def iter_source(t: Optional[Term]) -> Optional[Term]:
+    """what a loop walks, a snapshot taken for the walk (list(X) / tuple(X)) read as X"""
+    while t is not None:
+        u = strip_ver(t)
+        if u[0] == "call" and u[1] in (("name", "list"), ("name", "tuple")) and len(u[2]) == 1 and not u[3]:
+            t = u[2][0]
+            continue
+        return u
+    return None
 
 
 def unknown_series(*ts: Optional[Term]) -> bool:
